@@ -95,6 +95,10 @@ impl<'a, K, V> Index<&'a K> for HashMap<K, V> {
     fn index(&self, k: &'a K) -> (o: &V) ensures *o == self@[*k] { unimplemented!() }
 }
 impl<'a, K, V> IndexSpecImpl<&'a K> for HashMap<K, V> { open spec fn index_req(&self, k: &&'a K) -> bool { self@.contains_key(**k) } }
+/// `<[T]>::swap` by its documented meaning (panics when an index is out of bounds)
+pub assume_specification<T> [<[T]>::swap] (s: &mut [T], a: usize, b: usize)
+    requires a < old(s)@.len(), b < old(s)@.len(),
+    ensures final(s)@ == old(s)@.update(a as int, old(s)@[b as int]).update(b as int, old(s)@[a as int]);
 /// `vec![x]`
 pub fn vx_vec1<X>(x: X) -> (r: Vec<X>) ensures r@ == seq![x] { let mut v = Vec::new(); v.push(x); v }
 macro_rules! vec { ($x:expr) => { vx_vec1($x) } }
